@@ -153,9 +153,13 @@ func (bs *bootstrap) Shutdown() {
 	}
 }
 
-// removeListener close the listener with url
-func (bs *bootstrap) removeListener(url string) {
-	bs.listeners.Delete(url)
+// removeListener unregisters the listener l of url.
+// A newer listener registered under the same url (Listen after Close) is left alone:
+// closing the old Listener value once more must not hide the new one from Shutdown.
+func (bs *bootstrap) removeListener(url string, l *listener) {
+	if v, ok := bs.listeners.Load(url); ok && v == Listener(l) {
+		bs.listeners.Delete(url)
+	}
 }
 
 type Listener interface {
@@ -187,7 +191,7 @@ func (l *listener) Acceptor() transport.Acceptor {
 
 // Close listener
 func (l *listener) Close() error {
-	l.bs.removeListener(l.url)
+	l.bs.removeListener(l.url, l)
 
 	// a Sync that has not created its acceptor yet will see the closed flag,
 	// one that is creating it right now is waited for.
